@@ -104,7 +104,9 @@ def report(ctx, stage, why, c, extra=None):
     rep['stage'] = stage
     rep.update(extra or {})
     sig = {'stage': stage, 'features': sorted(P.classify(c.ids))}
-    ctx.violation('%s: %s (ids %s, %d subsets)' % (stage, why, c.ids[:30], c.n), rep, signature=sig)
+    # a model/implementation disagreement with the oracle passing is not by itself a failing input of the property
+    ctx.violation('%s: %s (ids %s, %d subsets)' % (stage, why, c.ids[:30], c.n), rep, signature=sig,
+                  no_failing_input=stage.endswith('correspondence'))
 
 
 def evaluate(drv, treq, cases, rng, widths=True):
@@ -171,7 +173,15 @@ def evaluate(drv, treq, cases, rng, widths=True):
             why = obs_diff(ow, oc, 'other legal widths', "encoder's widths")
             if why:
                 out[i][1].insert(0, ('legal-widths', why, {'widths_hex': bw.hex(), 'compressed_hex': bc.hex(), 'ks': out[i][2].get('ks')}))
+    for _, probs, _ in out:
+        probs.sort(key=lambda p: p[0].endswith('correspondence'))      # oracle failures first (stable)
     return out
+
+
+def may_shrink(ctx, limit=3):
+    """shrinking re-runs the pipeline many times: only the first few failing cases of a run are shrunk"""
+    ctx.shrinks = getattr(ctx, 'shrinks', 0) + 1
+    return ctx.shrinks <= limit
 
 
 def fails(drv, treq, c, stage, rng):
@@ -223,6 +233,10 @@ def generated_part(ctx, drv, treq, count):
             tally(ctx, c, info, 'generated')
             if probs:
                 stage, why, extra = probs[0]
+                if not may_shrink(ctx):
+                    report(ctx, stage, why, c, extra)
+                    continue
+
                 def still(c2, stage=stage):
                     c2.comp = True
                     cs = P.gen_values(drv, treq, [c2], ctx.rng('shrink'))
@@ -286,21 +300,29 @@ def numeric_label(lab):
     return len(lab) == 6 and lab.isdigit() and lab[0] == '0'
 
 
-def only_all_ones_entries(stored, flipped):
-    """the stored compressed data hold present NUMERIC entries whose raw value is the all-ones pattern of the
-    field (the same field written uncompressed is, by definition, missing): outside the property's raw domain"""
+def foreign_form(stored, flipped):
+    """Why a stored COMPRESSED file is outside the property's domain, or None.  Two forms a foreign producer can
+    write and pybufrkit's encoder cannot, whose decoded values are not values of the uncompressed field:
+      * a present NUMERIC entry whose raw value (minimum + increment) is the all-ones pattern of the field (the
+        same field written uncompressed is, by definition, missing);
+      * character increments shorter than the field: the decoded strings are shorter than the field and come
+        back blank-padded from the uncompressed form."""
     if stored[0] != 'ok' or flipped[0] != 'ok' or len(stored[1]) != len(flipped[1]):
-        return False
-    n = 0
+        return None
+    reasons = set()
     for x, y in zip(stored[1], flipped[1]):
         if x['d'] != y['d'] or x['l'] != y['l'] or len(x['v']) != len(y['v']):
-            return False
+            return None
         for lab, p, q in zip(x['d'], x['v'], y['v']):
-            if not same_exact(p, q):
-                if not (q is None and p is not None and numeric_label(lab) and not isinstance(p, bytes)):
-                    return False
-                n += 1
-    return n > 0
+            if same_exact(p, q):
+                continue
+            if q is None and p is not None and numeric_label(lab) and not isinstance(p, bytes):
+                reasons.add('stored-numeric-entry-equals-the-missing-pattern')
+            elif isinstance(p, bytes) and isinstance(q, bytes) and len(p) < len(q) and q == p.ljust(len(q), b' '):
+                reasons.add('stored-character-increments-shorter-than-the-field')
+            else:
+                return None
+    return '+'.join(sorted(reasons)) or None
 
 
 def corpus_flip(path):
@@ -336,14 +358,19 @@ def corpus_flip(path):
             'features': sorted(P.classify(ids))}
     try:
         m2 = Encoder().process(data, wire_template_data=False)
+    except OSError as e:
+        if 'tables' in str(e):
+            # the decoder falls back to a bundled table group (normalize=1), the encoder does not (normalize=0)
+            return None, {'skipped': 'encoder-has-no-tables-for-this-file'}, None
+        return ('re-encoding with the flag flipped fails: %s %r' % (core.err_tag(e), str(e)[:120])), info, None
     except Exception as e:  # noqa
         return ('re-encoding with the flag flipped fails: %s %r' % (core.err_tag(e), str(e)[:120])), info, None
     b2 = m2.serialized_bytes
     o1 = C.impl_decode(b2)
     why = obs_diff(o0, o1, 'as stored', 'flag flipped') if comp else obs_diff(o1, o0, 'flag flipped', 'as stored')
     if why:
-        if comp and only_all_ones_entries(o0, o1):
-            return None, {'skipped': 'stored-numeric-entry-equals-the-missing-pattern'}, None
+        if comp and foreign_form(o0, o1):
+            return None, {'skipped': foreign_form(o0, o1)}, None
         return 'transparency: ' + why, info, None
     key = msg.table_group_key
     tkey = (tuple(key.wmo_tables_sn), tuple(key.local_tables_sn) if key.local_tables_sn else None, key.tables_root_dir)
@@ -351,7 +378,7 @@ def corpus_flip(path):
 
 
 def corpus_part(ctx, drv, only=None):
-    files = [only] if only else P.corpus_files(ctx.tier, ctx.rng('corpus'), quick_n=30)
+    files = [only] if only else P.corpus_files(ctx.tier, ctx.rng('corpus'), quick_n=24)
     pending = {}
     for path in files:
         name = path.split('/')[-1]
@@ -748,6 +775,9 @@ def random_part(ctx, drv, treq, count):
                 continue
             if probs:
                 stage, why, extra = probs[0]
+                if not may_shrink(ctx):
+                    report(ctx, stage, why, c, dict(extra, note=c.note))
+                    continue
                 small = c
                 # one part alone, then fewer subsets
                 if len(c.parts) > 1:
@@ -796,7 +826,7 @@ def run(ctx):
     ctx.assumptions = ['a missing value for a 1-bit field is not a conforming input (FM 94 has no missing value for 1-bit fields); never generated',
                        'numeric entries are below the all-ones pattern of their field (the property\'s raw domain); code/flag entries may reach it']
     random_part(ctx, drv, treq, 260 if quick else 6000)
-    generated_part(ctx, drv, treq, 600 if quick else 12000)
+    generated_part(ctx, drv, treq, 540 if quick else 12000)
     corpus_part(ctx, drv)
     exhaustive_part(ctx, drv, treq, 3 if quick else 4)
 
